@@ -110,6 +110,7 @@ class AaveRef:
                 "borrow": bool(r["borrow"]),
             }
         self._cache = {}
+        self.stress = None
 
     # ------------------------------------------------------------------------------------------ scenario numbers
     def _series(self, col, t, bar, default):
@@ -135,7 +136,10 @@ class AaveRef:
         return self._series("variable_borrow_index", t, bar, 1)
 
     def P(self, t, bar):
-        return self._series("price", t, bar, 1)
+        v = self._series("price", t, bar, 1)
+        if self.stress:
+            v = v * self.stress.get(t, 1)  # a what-if price vector (aave.stress_read)
+        return v
 
     def rate_s(self, t, bar):
         return self._series("liquidity_rate", t, bar, 0)
